@@ -93,6 +93,12 @@ int main(int argc, char **argv) {
       uint64_t h = t[0] == "H" ? util::MurmurHash64A(buf, raw.size(), seed) : util::MurmurHashNative(buf, raw.size(), seed);
       std::cout << h << "\n";
       free(buf);
+    } else if (t[0] == "B" && t.size() == 3) {
+      std::string raw = Arg(t[2]);
+      char *buf = (char *)malloc(raw.size() + 1);
+      memcpy(buf + 1, raw.data(), raw.size());          // odd start address: 64B must not need alignment either
+      std::cout << util::MurmurHash64B(buf + 1, raw.size(), strtoull(t[1].c_str(), 0, 10)) << "\n";
+      free(buf);
     } else if (t[0] == "A" && t.size() == 4) {
       // the string placed at offset <align> of a heap block: start address = 16-aligned base + align
       size_t align = strtoul(t[1].c_str(), 0, 10) % 16;
